@@ -51,6 +51,8 @@ pub struct Counters {
     pub completeness_obligations: u64,
     pub with_autocorrect: u64,
     pub with_emoji: u64,
+    /// a few judged lists of this walker (evidence samples)
+    pub samples: Vec<serde_json::Value>,
 }
 
 impl<'a> Oracle<'a> {
@@ -69,6 +71,9 @@ impl<'a> Oracle<'a> {
         let Rend::Full { items, .. } = r else { return };
         cnt.lists += 1;
         cnt.candidates += items.len() as u64;
+        if cnt.samples.len() < 2 && items.len() >= 4 && text.len() >= 3 {
+            cnt.samples.push(serde_json::json!({"flags": opts.flags(), "typed": text, "list_judged": items}));
+        }
         let (sp, word, st) = split_ref(text, false);
         let (lead, trail) = {
             let (a, b) = (self.avro.tr(&sp), self.avro.tr(&st));
